@@ -817,6 +817,9 @@ func (b *BaseStore) LoadFromSnapshot(ctx context.Context) error {
 		return fmt.Errorf("unable to update index: %w", err)
 	}
 
+	// the snapshot is fully loaded: bring progress up to the maximum
+	b.recalculateReplicationStatus(maxClock)
+
 	return nil
 }
 
